@@ -1,6 +1,6 @@
 import QR.Gen.Code
 /-
-Translation validation for C20 and for QRData.write (C06): the literals the model depends on, as they stand in the source.
+Translation validation, literals as they stand in the source: release.update_manpage (C20).
 -/
 namespace QR.SourceTie
 open QR.Gen.Code
@@ -9,12 +9,5 @@ open QR.Gen.Code
 theorem release_literals :
     release_strings = ["qrcode", "doc", "qr.1", "name", "\"([^\"]*)\"", ".TH ", "new_version", "new_version", "%-d %b %Y", "w", "\""] ∧
     release_ints = [5, 3, 3, 1] := by decide
-
-/-- QRData.write: digits in groups of 3 (widths from NUMBER_LENGTH), alphanumerics in pairs 45·a+b in 11 bits / singles in 6,
-    bytes in 8 -/
-theorem write_literals :
-    write_steps = [3, 2] ∧
-    write_puts = ["buffer.put(int(chars), bit_length)", "buffer.put(c, 8)",
-      "buffer.put(ALPHA_NUM.find(chars[0]) * 45 + ALPHA_NUM.find(chars[1]), 11)", "buffer.put(ALPHA_NUM.find(chars), 6)"] := by decide
 
 end QR.SourceTie
